@@ -1451,3 +1451,216 @@ def clash_set(rng):
         # the template lives in module 0; every module instantiates it
         m["template_module_automatic"] = with_param and "AUTOMATIC TAGS" in mods[0]["text"].split("BEGIN")[0]
     return mods
+
+
+# ===========================================================================
+# Cross-module constraint resolution: contained-subtype (`INCLUDES`) and value-reference chains over 2-3
+# modules in separate files.  Every set comes with the description coq/Fix/Pullup.v takes (types numbered so
+# that every reference goes to a smaller number, own constraint = sequence of leaves, parent reference), so
+# that the combined constraints asn1c computes for every file order can be compared with the model's.
+
+def _xm_text(name, imports, lines):
+    imp = ""
+    if imports:
+        imp = "IMPORTS " + " ".join("%s FROM %s" % (", ".join(ns), m) for m, ns in imports.items() if ns) + ";\n"
+        if imp == "IMPORTS ;\n":
+            imp = ""
+    return "%s DEFINITIONS AUTOMATIC TAGS ::= BEGIN\n%s%s\nEND\n" % (name, imp, "\n".join(lines))
+
+
+class XSet:
+    """builder of one cross-module set"""
+    def __init__(self, rng, nmods, tagno):
+        self.r = rng
+        self.names = ["X%s%d" % ("abc"[i], tagno) for i in range(nmods)]        # module 0 = top ... last = base
+        self.types = []      # {"name","mod","parent":idx|None,"own":[leaf],"text":rhs,"kind":"int"|"size"}   leaf = ("L",lo,hi)|("V",lo,validx)|("I",typeidx)
+        self.vals = []       # {"name","mod","z","text"}
+        self.extra = [[] for _ in range(nmods)]     # unmodelled decoration lines per module
+        self.uses = [set() for _ in range(nmods)]   # imported symbols per module: (symbol, from module index)
+        self.n = 0
+
+    def fresh(self, stem):
+        self.n += 1
+        return "%s%d" % (stem, self.n)
+
+    def use(self, mod, sym_mod, name):
+        if sym_mod != mod:
+            self.uses[mod].add((name, sym_mod))
+
+    def add_value(self, mod, z=None, ref=None):
+        nm = self.fresh("lim")
+        if ref is not None:
+            v = self.vals[ref]
+            self.use(mod, v["mod"], v["name"])
+            self.vals.append({"name": nm, "mod": mod, "z": v["z"], "text": "%s INTEGER ::= %s" % (nm, v["name"])})
+        else:
+            self.vals.append({"name": nm, "mod": mod, "z": z, "text": "%s INTEGER ::= %d" % (nm, z)})
+        return len(self.vals) - 1
+
+    def leaf_text(self, mod, leaf, incl_kw):
+        if leaf[0] == "L":
+            return "%d..%d" % (leaf[1], leaf[2])
+        if leaf[0] == "V":
+            v = self.vals[leaf[2]]
+            self.use(mod, v["mod"], v["name"])
+            return "%d..%s" % (leaf[1], v["name"])
+        t = self.types[leaf[1]]
+        self.use(mod, t["mod"], t["name"])
+        return ("INCLUDES " if incl_kw else "") + t["name"]
+
+    def add_type(self, mod, own=(), parent=None, size=False, stem="T"):
+        nm = self.fresh(stem)
+        base = "OCTET STRING" if size else "INTEGER"
+        if parent is not None:
+            p = self.types[parent]
+            self.use(mod, p["mod"], p["name"])
+            base = p["name"]
+        txt = ""
+        if own:
+            body = " | ".join(self.leaf_text(mod, l, self.r.chance(1, 2)) for l in own)
+            txt = " (SIZE(%s))" % body if size else " (%s)" % body
+        self.types.append({"name": nm, "mod": mod, "parent": parent, "own": list(own), "size": size,
+                           "text": "%s ::= %s%s" % (nm, base, txt)})
+        return len(self.types) - 1
+
+    # ---- the order-free meaning (python's own evaluation, independent of the Coq model)
+    def leaves(self, t):
+        ty = self.types[t]
+        cp = self.leaves(ty["parent"]) if ty["parent"] is not None else None
+        if cp is None and not ty["own"]:
+            return None
+        out = list(cp or [])
+        for l in ty["own"]:
+            if l[0] == "L":
+                out.append(("L", l[1], l[2]))
+            elif l[0] == "V":
+                out.append(("L", l[1], self.vals[l[2]]["z"]))
+            else:
+                sub = self.leaves(l[1])
+                out += sub if sub is not None else [("I", l[1])]
+        return out
+
+    def has_refs(self, t):
+        """the type's own constraint, or that of a type on its parent chain, holds a reference"""
+        ty = self.types[t]
+        if any(l[0] in ("V", "I") for l in ty["own"]):
+            return True
+        return ty["parent"] is not None and (self.types[ty["parent"]]["mod"] != ty["mod"] or self.has_refs(ty["parent"]))
+
+    def build(self, shuffle=True):
+        k = len(self.names)
+        mods = []
+        for i in range(k):
+            items = [("t", j) for j, t in enumerate(self.types) if t["mod"] == i] + [("v", j) for j, v in enumerate(self.vals) if v["mod"] == i]
+            if shuffle and self.r.chance(1, 2):
+                items = self.r.shuffle(items)        # definition order is free: forward references
+            lines = [(self.types[j]["text"] if kind == "t" else self.vals[j]["text"]) for kind, j in items] + self.extra[i]
+            imports = {}
+            for (sym, frm) in sorted(self.uses[i]):
+                imports.setdefault(self.names[frm], []).append(sym)
+            mods.append({"name": self.names[i], "text": _xm_text(self.names[i], imports, lines),
+                         "order": [j for kind, j in items if kind == "t"]})
+        return mods
+
+    def model_args(self, perm, mods, seeded=False):
+        """arguments of the model command c12_pull for the file order perm"""
+        a = ["1" if seeded else "0", str(len(self.types))]
+        for t in self.types:
+            a += [str(t["mod"]), "-" if t["parent"] is None else str(t["parent"]), str(len(t["own"]))]
+            for l in t["own"]:
+                a += ([l[0], str(l[1]), str(l[2])] if l[0] != "I" else ["I", str(l[1])])
+        a += [str(len(self.vals))] + [str(v["z"]) for v in self.vals]
+        a.append(str(len(perm)))
+        for i in perm:
+            a += [str(i), str(len(mods[i]["order"]))] + [str(j) for j in mods[i]["order"]]
+        return a
+
+
+XM_SHAPES = ["alias-incl", "alias-incl-valref", "alias-incl-valchain", "alias2-incl", "parent-chain", "direct-incl-literal",
+             "valref-across", "valchain-across", "incl-union", "size-valref", "incl-unconstrained", "two-modules"]
+
+
+def xmod_set(rng, tagno, shape=None):
+    """one set of 2-3 module files with contained-subtype / value-reference chains across them.  Returns
+    {"mods":[{"name","text","order"}], "xs": XSet, "shape", "witness": None}.  The shapes stay clear of finding
+    C12-includes-foreign-namespace (a contained subtype naming a type of ANOTHER module whose own
+    constraints hold references): they reach the foreign type through a local alias (`X ::= Y`), which is the path
+    constraint_type_resolve -> asn1constraint_pullup walks with arg->mod = the including module."""
+    shape = shape or rng.choice(XM_SHAPES)
+    k = 2 if shape == "two-modules" else 3
+    xs = XSet(rng, k, tagno)
+    top, mid, base = 0, (1 if k == 3 else 1), k - 1
+    lo = rng.range(-20, 5)
+    hi = lo + rng.range(10, 200)
+    w = xs.add_type(base, [("L", lo, hi)] if shape != "incl-unconstrained" else [], stem="W")
+    wv = xs.add_value(base, z=hi + rng.range(0, 50))
+    if rng.chance(1, 2):
+        xs.add_type(base, [("L", lo, hi), ("L", hi + 10, hi + 20)], stem="W")
+    if shape in ("alias-incl", "alias2-incl", "incl-union", "incl-unconstrained", "two-modules"):
+        y = xs.add_type(mid, [("I", w)] + ([("L", hi + 30, hi + 40)] if shape == "incl-union" else []), stem="Y")
+    elif shape == "alias-incl-valref":
+        y = xs.add_type(mid, [("V", lo, wv)], stem="Y")
+    elif shape == "alias-incl-valchain":
+        yv = xs.add_value(mid, ref=wv)
+        y = xs.add_type(mid, [("V", lo, yv)], stem="Y")
+    elif shape == "parent-chain":
+        y0 = xs.add_type(mid, parent=w, stem="Y")
+        y = xs.add_type(mid, [("L", lo + 1, hi - 1)], parent=y0, stem="Y")
+    elif shape == "direct-incl-literal":
+        y = xs.add_type(mid, [("L", lo, hi)], stem="Y")
+    elif shape in ("valref-across", "valchain-across"):
+        yv = xs.add_value(mid, ref=wv) if shape == "valchain-across" else wv
+        y = xs.add_type(mid, [("V", lo, yv)], stem="Y")
+    elif shape == "size-valref":
+        sv = xs.add_value(base, z=rng.range(8, 64))
+        yv = xs.add_value(mid, ref=sv)
+        y = xs.add_type(mid, [("V", 0, yv)], size=True, stem="Y")
+    # the top module
+    if shape == "direct-incl-literal":
+        xs.add_type(top, [("I", y)] + ([("L", hi + 100, hi + 110)] if rng.chance(1, 2) else []), stem="V")
+    elif shape in ("valref-across", "valchain-across"):
+        tv = xs.add_value(top, ref=yv) if rng.chance(1, 2) else yv
+        xs.add_type(top, [("V", lo - 5, tv)], stem="V")
+        x = xs.add_type(top, parent=y, stem="X")
+    elif shape == "size-valref":
+        x = xs.add_type(top, parent=y, stem="X")
+        xs.add_type(top, [("V", 1, yv)], size=True, stem="V")
+    else:
+        x = xs.add_type(top, parent=y, stem="X")
+        if shape == "alias2-incl":
+            x = xs.add_type(top, parent=x, stem="X")
+        own = [("I", x)]
+        if rng.chance(1, 3):
+            own.append(("L", hi + 300, hi + 310))
+        if rng.chance(1, 4):
+            own.insert(0, ("L", lo - 40, lo - 30))
+        xs.add_type(top, own, stem="V")
+        if rng.chance(1, 2):
+            xs.add_type(top, [("I", x)], stem="V")         # the same contained subtype twice: the cached result is reused
+    # decoration: constructed types using the constrained ones (their files change when the constraints do)
+    if rng.chance(2, 3):
+        ms = ["f%d %s" % (i, t["name"]) for i, t in enumerate(xs.types) if t["mod"] == top][:4]
+        for i, t in enumerate(xs.types):
+            if t["mod"] == mid and rng.chance(1, 2):
+                xs.use(top, mid, t["name"])
+                ms.append("g%d %s OPTIONAL" % (i, t["name"]))
+        xs.extra[top].append("%s ::= SEQUENCE { %s }" % (xs.fresh("Rec"), ", ".join(ms)))
+    return {"mods": xs.build(), "xs": xs, "shape": shape, "witness": None}
+
+
+def xmod_witness(rng, tagno, kind):
+    """witnesses of finding C12-includes-foreign-namespace: module A names a type Y of module B in a contained
+    subtype constraint, and Y's own constraint holds a reference that is looked up in A's name space when A is
+    processed before B.  kind "fatal": the referenced name is unknown in A; kind "silent": A has another
+    definition of that name, which is silently taken."""
+    a, b, c = "Na%d" % tagno, "Nb%d" % tagno, "Nc%d" % tagno
+    if kind == "fatal":
+        texts = [_xm_text(a, {b: ["Yf"]}, ["Xf ::= INTEGER (INCLUDES Yf)"]),
+                 _xm_text(b, {c: ["Wf"]}, ["Yf ::= INTEGER (Wf)"]),
+                 _xm_text(c, {}, ["Wf ::= INTEGER (0..%d)" % rng.range(50, 150)])]
+    else:
+        texts = [_xm_text(a, {b: ["Ys"]}, ["Xs ::= INTEGER (INCLUDES Ys)", "lims INTEGER ::= %d" % rng.range(2, 9)]),
+                 _xm_text(b, {}, ["Ys ::= INTEGER (0..lims)", "lims INTEGER ::= %d" % rng.range(100, 200)])]
+    names = [a, b, c][:len(texts)]
+    return {"mods": [{"name": n, "text": t, "order": []} for n, t in zip(names, texts)], "xs": None, "shape": "witness-" + kind,
+            "witness": kind}
